@@ -79,6 +79,39 @@ def requests(tier, rng):
         L.append("fips202::shake256_script o:%d,b:2,s:9 %s" % (n, hexs(data(rng, n))))
     # state reuse after init
     L.append("fips202::shake256_script a:10,f,s:20,i,a:3,f,s:64 %s" % hexs(data(rng, 10) + b"abc"))
+    # re-initialisation at every kind of point: after whole-block absorbs (position 0), mid-block, after finalize, after
+    # squeezes that end inside / at the end of a block; the second phase must be a fresh FIPS 202 computation
+    for is256, nm, r in ((True, "shake256_script", 136), (False, "shake128_script", 168)):
+        out = "s:64" if is256 else "b:1"
+        for pre in ("a:%d" % r, "a:%d" % (2 * r), "a:%d,a:%d" % (r - 36, 36), "a:%d" % (r - 1), "a:%d" % (r + 1), "a:0", "a:5,f",
+                    "a:%d,f" % r, "a:5,f,%s" % out, "a:%d,f,%s" % (r, out)) + (("a:5,f,s:136", "a:5,f,s:135", "a:5,f,s:137", "a:136,f,s:272") if is256 else ("a:5,f,b:2",)):
+            n1 = sum(int(o[2:]) for o in pre.split(",") if o.startswith("a:"))
+            for post in ("a:3,f,%s" % out, "f,%s" % out, "a:%d,f,%s" % (r, out), "a:%d,a:1,f,%s" % (r - 1, out)):
+                n2 = sum(int(o[2:]) for o in post.split(",") if o.startswith("a:"))
+                L.append("fips202::%s %s,i,%s %s" % (nm, pre, post, hexs(data(rng, n1 + n2))))
+            L.append("fips202::%s %s,i,i,a:2,f,%s,i,a:%d,i,a:1,f,%s %s" % (nm, pre, out, r, out, hexs(data(rng, n1 + 3 + r))))
+    for _ in range(200 if tier == "thorough" else 40):
+        is256 = rng.random() < 0.6
+        r = 136 if is256 else 168
+        ops = []; tot = 0
+        for ph in range(rng.randrange(2, 5)):
+            if ph:
+                ops.append("i")
+            for _a in range(rng.randrange(0, 4)):
+                k = rng.choice([0, 1, r - 1, r, r + 1, 2 * r, rng.randrange(0, 3 * r)])
+                if rng.random() < 0.3 and tot % r:
+                    k = r - tot % r
+                ops.append("a:%d" % k); tot += k
+            if rng.random() < 0.7 or ph == 0:
+                ops.append("f")
+                if is256:
+                    ops += ["s:%d" % rng.choice([0, 1, 135, 136, 137, rng.randrange(0, 300)]) for _s in range(rng.randrange(0, 3))]
+                else:
+                    ops += ["b:%d" % rng.randrange(1, 3) for _s in range(rng.randrange(0, 2))]
+            tot = 0 if True else tot
+        ops += ["i", "a:4", "f", "s:48" if is256 else "b:1"]
+        n = sum(int(o[2:]) for o in ops if o.startswith("a:"))
+        L.append("fips202::%s %s %s" % ("shake256_script" if is256 else "shake128_script", ",".join(ops), hexs(data(rng, n))))
     # stream init functions (seed || nonce LE)
     for nonce in (0, 1, 255, 256, 257, 0x1234, 65535):
         L.append("fips202::shake128_stream_init %s %d 2" % (hexs(data(rng, 32)), nonce))
